@@ -122,6 +122,9 @@ func exec1(c px.Context, op string, args []sx.Sexp) core.Result {
 	case "rt-int":
 		return rtValue(c, op, types.WrapInteger(args[0].MustInt()), false, "")
 	case "rt-val":
+		if len(args) != 2 {
+			break
+		}
 		var v px.Value
 		if o := syn.Safely(func() px.Value { return valOf(c, args[0]) }); o.Kind != "value" {
 			return core.Result{Out: "unbuildable", Pred: "n/a", Tags: []string{"unbuildable"}}
@@ -723,7 +726,24 @@ func rxOp(s string) string {
 	return "rt-rx " + hx(s) + " " + sx.B(err == nil) + " " + syn.OracleSexp(buf.String())
 }
 
+// valOp renders an rt-val op line.  A value built from the modelled kinds only (no types, objects, binaries, leaves)
+// also goes to the model, together with the regexp.Compile oracle for the text the implementation prints for it.
+func valOp(c px.Context, v string) string {
+	for _, tag := range []string{"(ty ", "(bin ", "(ts ", "(tsp ", "(sv ", "(uri ", "(obj ", "(sens "} {
+		if strings.Contains(v, tag) {
+			return "@rt-val " + v + " ()"
+		}
+	}
+	xs, err := sx.Parse(v)
+	if err != nil || len(xs) != 1 {
+		panic("bad generated value " + v)
+	}
+	text := px.ToString2(valOf(c, xs[0]), programFormat())
+	return "rt-val " + v + " " + syn.OracleSexp(text)
+}
+
 func gen(g *core.G) {
+	c := px.CurrentContext()
 	// exhaustive: every string of length <= 2 (quick) / <= 3 (thorough) over the hostile alphabet, as a string and as a quote op
 	alpha := syn.HostileAlphabet
 	var rec func(cur string, n int)
@@ -760,7 +780,7 @@ func gen(g *core.G) {
 		}
 	}
 	for _, f := range floats {
-		g.Emit("@rt-val " + floatSexp(f))
+		g.Emit(valOp(c, floatSexp(f)))
 	}
 	// seed type expressions and every core type name
 	for _, e := range syn.SeedExprs {
@@ -785,7 +805,7 @@ func gen(g *core.G) {
 	// random literal values; inferred types of values
 	for i := 0; i < 6000*g.Scale; i++ {
 		v := genVal(g.Rng, g.Rng.Intn(4), false)
-		g.Emit("@rt-val " + v)
+		g.Emit(valOp(c, v))
 		if i%3 == 0 {
 			g.Emit("@rt-typeof " + v)
 		}
